@@ -14,8 +14,8 @@ FUNCTIONS = [
     "jsonargparse._namespace.recreate_branches/dict_to_namespace/namespace_to_dict/add_clash_mark/del_clash_mark",
 ]
 
-MUTATORS = ["setitem", "setattr", "del", "pop", "update_ns", "update_key", "update_unset"]
-TAKES_VALUE = {"setitem", "setattr", "update_ns", "update_key", "update_unset"}
+MUTATORS = ["setitem", "setattr", "del", "pop", "update_ns", "update_key", "update_unset", "update_ns_unset"]
+TAKES_VALUE = {"setitem", "setattr", "update_ns", "update_key", "update_unset", "update_ns_unset"}
 KEYS_QUICK = ["a", "b", "items", "a.b", "a.items", "items.a"]
 KEYS_THOROUGH = KEYS_QUICK + ["keys", "a.b.items", "get.update"]
 KINDS = ["int", "list", "tuple", "ns", "none"]
@@ -113,6 +113,14 @@ def _apply(ns, model, mut, key, kind, ints, Namespace):
                 m_set(model, path + lp, lv)
         else:
             m_set(model, path, mvalue)
+    elif mut == "update_ns_unset":
+        # argument namespace holding `value` at `key`; only leaves whose key is not present (as leaf or branch) are set
+        if isinstance(mvalue, Branch):
+            for lp, lv in m_leaves(mvalue):
+                if m_get(model, path + lp) is MISSING:
+                    m_set(model, path + lp, lv)
+        elif m_get(model, path) is MISSING:
+            m_set(model, path, mvalue)
     elif mut in ("update_key", "update_unset"):
         unset_only = mut == "update_unset"
         if isinstance(mvalue, Branch):
@@ -139,6 +147,10 @@ def _apply(ns, model, mut, key, kind, ints, Namespace):
             r = ns.update(arg)
             if r is not ns:
                 return Fail("ns:update-does-not-return-self")
+        elif mut == "update_ns_unset":
+            arg = Namespace()
+            arg[key] = value
+            ns.update(arg, only_unset=True)
         elif mut == "update_key":
             ns.update(value, key)
         elif mut == "update_unset":
